@@ -158,13 +158,18 @@ class C16(Check):
     design_ref = "DESIGN.md §5 C16"
     technique = ("Lean 4 proof over a char-level executable model of the address classes + differential correspondence "
                  "(compiled model vs real code) + independent oracle (ipaddress / RFC reference) on the real code's observables")
-    level_text = ("Theorems (all values, no bound): netmask<->prefix inverse and rejection of every non-contiguous mask (IPv4 and IPv6, one "
-                  "width-generic proof), IPv4/IPv6 membership <=> equal top bits and zero host bits of the network, dpid string round trip for "
-                  "every d < 2^64, IPv6 print->parse round trip for every 16-byte address at character level (including the mixed "
-                  "::ffff:a.b.c.d form), RFC 5952 shape of the printed text, byte-order views of IPAddr, total order / equality / hash "
-                  "consistency, Ethernet text forms; D15 is kept as a decided witness (ip6_rejects_defect).")
-    level_note = ("Trusted: Lean kernel + 3 standard axioms, the hand-written model, the harness; the model is tied to the code only by the "
-                  "differential run (all 33/129 masks, per-octet sweeps, all 256 IPv6 zero patterns, grammar mutations). libc inet_aton is outside the model.")
+    level_text = ("Theorems (all values, no bound), about the character-level model Model/Addr.lean: netmask<->prefix inverse and rejection of every "
+                  "non-contiguous mask for IPv4 and IPv6 (one width-generic proof of the shift loop); IPv4/IPv6 membership <=> equal top bits AND zero host "
+                  "bits of the network; parse_cidr('a.b.c.d/len') and ('a.b.c.d/netmask') for every address, length and flag; dpid string round trip for "
+                  "every d < 2^64; IPv6 print->parse round trip for every 16-byte address and all 12 to_str option combinations (incl. mixed notation); "
+                  "RFC 5952 shape of str(IPAddr6) (longest, leftmost zero run of length >= 2, lower-case groups without leading zeros, ::ffff:a.b.c.d for "
+                  "mapped addresses); byte-order views of IPAddr; trichotomy/transitivity of <, == <=> equal bytes; every documented EthAddr text form. "
+                  "Defects kept as decided witnesses: D15 (ip6_rejects_defect/_witnesses), EthAddr and parse_cidr leniency.")
+    level_note = ("Trusted: Lean kernel + propext/Classical.choice/Quot.sound, the hand-written model, the harness. The model is tied to the code only by the "
+                  "differential run (all 33/129 masks, per-octet sweeps, all 256 IPv6 zero patterns x 12 print options, every Ethernet form, dpid boundaries, "
+                  "grammar mutations). NOT proved, only tested against ipaddress/RFC reference: that every *valid* IPv6/IPv4 text parses to the right bytes "
+                  "(only printed texts are covered by the round-trip theorem), classful inference in parse_cidr, IPv6 parse_cidr text, hashing, immutability, "
+                  "non-text constructor forms. libc inet_aton is outside the model (canonical dotted quads only).")
     rule = ("case = one operation (parse/print/compare/mask/membership/cidr/dpid) with its inputs, several addresses batched per case; "
             "distinct = sha1 of canonical case; non-trivial = the real code returned a value (no exception) or the input was malformed and rejected")
     coverage_cases = 20000
